@@ -251,12 +251,25 @@ def extract():
     if "*c != '\\'' && *c != '\"' && *c != '\\n' && *c != '\\r'" not in rs or 'just("r")' not in rs or "Literal::RawString(s.to_string())" not in rs:
         raise ExtractError("raw_string() changed")
 
+    # since fix d8fda67: lex_source / lex_source_recovery reject a token stream that contains a non-finite Float literal
+    s, e = block_after(src, m, r"fn\s+non_finite_literals\b[^{]*\{")
+    nf = norm(src[s:e])
+    if not nf.startswith("tokens .iter() .filter(|t| matches!(&t.kind, TokenKind::Literal(Literal::Float(f)) if !f.is_finite())) .map(|t| {") or \
+       '"number literal is out of range: its value is not a finite 64-bit float"' not in nf:
+        raise ExtractError("non_finite_literals() is no longer the modelled one")
+    for fn_, ret in (("lex_source_recovery", "return (None, errors);"), ("lex_source", "return Err(errors);")):
+        s, e = block_after(src, m, r"pub\s+fn\s+%s\b[^{]*\{" % fn_)
+        body_ = norm(src[s:e])
+        if not re.search(r"Ok\(tokens\) => \{ let errors = non_finite_literals\(source, &tokens, (source_id|0)\); if !errors\.is_empty\(\) \{ %s \}" % re.escape(ret), body_):
+            raise ExtractError("%s no longer rejects non-finite float literals" % fn_)
+
     # interval literals: <integer><unit>
     s, e = block_after(src, m, r"fn\s+value_and_unit\b[^{]*\{")
     vu = norm(src[s:e])
-    mu = re.fullmatch(r'let unit = choice\(\( ((?:just\("[a-z]+"\), )+)\)\); parse_integer\(\)\.then\(unit\)\.then_ignore\(end_expr\(\)\)\.map\( '
-                      r'\|\(number_str, unit_str\): \(&str, &str\)\| \{ let n = number_str\.replace\(\'_\', ""\)\.parse::<i64>\(\)\.unwrap_or\(1\); '
-                      r'Literal::ValueAndUnit\(ValueAndUnit \{ n, unit: unit_str\.to_string\(\), \}\) \}, \)', vu)
+    # since fix 8948ad3: try_map; a count that does not fit i64 is not an interval literal (Model/Literal.v lex_interval)
+    mu = re.fullmatch(r'let unit = choice\(\( ((?:just\("[a-z]+"\), )+)\)\); parse_integer\(\)\.then\(unit\)\.then_ignore\(end_expr\(\)\)\.try_map\( '
+                      r'\|\(number_str, unit_str\): \(&str, &str\), span\| \{ let n = number_str \.replace\(\'_\', ""\) \.parse::<i64>\(\) \.map_err\(\|_\| Simple::new\(None, span\)\)\?; '
+                      r'Ok\(Literal::ValueAndUnit\(ValueAndUnit \{ n, unit: unit_str\.to_string\(\), \}\)\) \}, \)', vu)
     if not mu:
         raise ExtractError("value_and_unit() is no longer the modelled one")
     info["interval_units"] = re.findall(r'just\("([a-z]+)"\)', mu.group(1))
